@@ -226,7 +226,7 @@ theorem aliasFacts_nb {cfg : Cfg} (H : CfgOk cfg) (a : RustTypeAlias) (f : ScAli
   nb_pieces
   · exact comments_nb 0 _ ha.docs
   · nb_lit
-  · exact KeyStr.nb ha.original
+  · exact KeyStr.nb ha.renamed
   · exact genericSq_nb _ ha.generics
   · nb_lit
   · exact formatType_nb H _ a.ty ty ha.ty hty
@@ -296,7 +296,7 @@ theorem caseFacts_ok {cfg : Cfg} (H : CfgOk cfg) (e : RustEnum) (he : EnumOk e) 
   · rename_i tag contentKey hk
     have hck := he.content _ hk
     have hname : NB S (variantName v.id.original) := IdentStr.nb (variantName_ident hv.original)
-    have hparent : NB S e.id.original := IdentStr.nb he.original
+    have hparent : NB S e.id.renamed := KeyStr.nb he.renamed
     cases v with
     | unit id cs =>
       simp only at h; cases h
@@ -314,7 +314,7 @@ theorem caseFacts_ok {cfg : Cfg} (H : CfgOk cfg) (e : RustEnum) (he : EnumOk e) 
       intro x hx; cases hx
       refine ⟨he.generics, KeyStr.nb hck, ?_⟩
       nb_pieces
-      · exact IdentStr.nb he.original
+      · exact KeyStr.nb he.renamed
       · exact IdentStr.nb hv.original
       · nb_lit
       · exact genericSq_nb _ fun g hg => he.generics g (usedGenerics_sub e fs g hg)
